@@ -7,7 +7,7 @@ import ast
 
 from . import api, signs
 from .core import (Interp, TupleV, Closure, FuncRef, ClassRef, ExtRef, ObjV, BoundMethod, SuperV, SliceV, GENERIC)
-from .loader import Inconclusive, norm, where
+from .loader import Inconclusive, norm, where, dotted_of
 
 CLEAN, PAT, RAW, ARITH = 0, 1, 2, 3
 NAMES = ["CLEAN", "PAT", "RAW", "ARITH"]
